@@ -4,8 +4,12 @@ impl -> spec: `vh-ops infer` drives the real code - (a) single-operator ONNX mod
 operators x attribute variants, seeded shapes / integer data) whose `as_infer_shapes()` rule is called on a
 seeded abstraction of the concrete inputs, (b) seeded multi-operator chains over shape-carrying integer
 tensors (Shape/Gather/Slice/Concat/arithmetic/Neg/Equal/Where/Cast feeding ConstantOfShape/Expand/Range/
-Reshape/Tile) with the rules applied in plan order as rten::infer_shapes does - and Model::run on the
-concrete inputs.  specs/shape/Trace_ShapeInfer (contract: specs/shape/ShapeInfer.tla, expression semantics:
+Reshape/Tile), and (c) "fold" chains in which every rule that decides something from SymExpr::range() /
+is_positive() / simplify() / symbolic equality or from a folded constant (Equal, Where picking a branch,
+Less/Greater, Range, Expand, ConstantOfShape, Reshape with -1, Slice with symbolic start/end, Max/Min) is fed
+by scalar value expressions with two symbolic operands of which one may be negative (d, -d, 0-d, d-k, k-d,
+t*d', t*t', t/d', t+d') over small symbolic dims (0..4) and Equal compares with the value the expression really
+has - with the rules applied in plan order as rten::infer_shapes does - and Model::run on the concrete inputs.  specs/shape/Trace_ShapeInfer (contract: specs/shape/ShapeInfer.tla, expression semantics:
 specs/lib/SymExpr.tla) unifies symbolic and concrete inputs and judges every inferred rank / length / fixed
 dim or element / expression against what execution produced.  The contract machinery and a transcription of
 the BinaryOp broadcasting rule are model-checked by MC_ShapeInfer."""
@@ -118,7 +122,9 @@ def finish(ctx, files, bad, stats):
         rule="cases = operator applications: single-operator models from a catalogue of operators x attribute variants with seeded "
              "shapes (rank 0-4, dims incl. 0 and 1) and integer data (shape-carrying vectors incl. negative / zero values), each with "
              "a seeded abstraction (dim -> fixed | positive symbol | expression; element -> value | symbol | expression; tensor -> "
-             "unknown); plus every operator of seeded Shape/Gather/.../Equal/Where chains. distinct by (op, attrs, concrete inputs, "
+             "unknown); plus every operator of seeded Shape/Gather/.../Equal/Where chains and of 'fold' chains (products / quotients / "
+             "sums of two symbolic, possibly negative dim expressions feeding Equal->Where, Less/Greater, Range, Expand, ConstantOfShape, "
+             "Reshape(-1), Slice). distinct by (op, attrs, concrete inputs, "
              "symbolic inputs); non-trivial = some symbolic input is not a constant and inference made a claim (not 'unknown')",
         assumptions=["optimisation is off when the models are loaded; the operator object is the one the ONNX loader built",
                      "chains: the propagation of rten::infer_shapes is emulated from its public pieces (needed to obtain expression "
@@ -137,9 +143,9 @@ def run(ctx):
         return replay(ctx)
     ctx.tlc_mc("shape/MC_ShapeInfer", "shape/MC_ShapeInfer.cfg", workers=4, timeout=1800, heap="4g")
     shards = 2 if ctx.quick else 4
-    per, chains = (24, 160) if ctx.quick else (3000, 30000)
+    per, chains, fold = (24, 160, 60) if ctx.quick else (3000, 30000, 6000)
     prefix = ctx.path("infer.ndjson")
-    ctx.harness("vh-ops", ["infer", "--out", prefix, "--per", per, "--chains", chains, "--shards", shards], timeout=3600)
+    ctx.harness("vh-ops", ["infer", "--out", prefix, "--per", per, "--chains", chains, "--fold-chains", fold, "--shards", shards], timeout=3600)
     files = ["%s.%d" % (prefix, k) for k in range(shards)]
     bad, stats = validate(ctx, files)
     finish(ctx, files, bad, stats)
